@@ -201,11 +201,13 @@ func (e *env) runHistory(g *group, seq []int, checkFrom int, hidx int) {
 	}
 	var others []*obj
 	grown := g.n0 == D.n
+	ph := 0
 	for k, si := range seq {
 		op := g.alphabet[si]
 		before := cur.p.Form()
 		hist := func() string { return e.histString(g, seq, k) }
-		nbTasks := []int{0, 1, 2, 16}[(hidx+k)%4]
+		ph = ph*7 + si + 1 // a function of the prefix only: the same prefix is always executed with the same arguments
+		nbTasks := []int{0, 1, 2, 16}[ph%4]
 		if op <= opToLagrangeCoset && !grown {
 			if before != (iops.Form{Basis: iops.Canonical, Layout: iops.Regular}) {
 				return // growing a vector that is not Canonical-Regular is outside the contract: history not applicable
@@ -254,7 +256,7 @@ func (e *env) runHistory(g *group, seq []int, checkFrom int, hidx int) {
 				wantLayout = iops.BitReverse
 			case opClone:
 				capacity := -1
-				if (hidx+k)%2 == 0 {
+				if (ph/4)%2 == 0 {
 					capacity = 2*cur.p.Len() + 3
 				}
 				np := cur.p.Clone(capacity)
